@@ -118,7 +118,7 @@ def bech32_decode(data: bytes) -> bytes:
     if modulo:
         # discard zero-padding
         assert (
-            bin(decoded)[-modulo:] == "0" * modulo
+            decoded & ((1 << modulo) - 1) == 0
         ), "non-zero padding in 8-to-5 conversion"
         assert modulo <= 4, "zero padding of more than 4 bits"
         decoded >>= modulo
